@@ -779,7 +779,11 @@ func (e *endpoint) handleClose() *tcpip.Error {
 // resetConnectionLocked 发送一个RST段，并将端点置于具有给定错误代码的错误状态。
 // 只能从协议goroutine中调用此方法。
 func (e *endpoint) resetConnectionLocked(err *tcpip.Error) {
-	e.sendRaw(buffer.VectorisedView{}, flagAck|flagRst, e.snd.sndUna, e.rcv.rcvNxt, 0)
+	// A reset is never answered: only send one if the connection is being
+	// aborted for a reason other than having received a reset.
+	if !e.rstReceived {
+		e.sendRaw(buffer.VectorisedView{}, flagAck|flagRst, e.snd.sndUna, e.rcv.rcvNxt, 0)
+	}
 
 	e.state = stateError
 	e.hardError = err
@@ -821,6 +825,7 @@ func (e *endpoint) handleSegments() *tcpip.Error {
 				// validated by checking their SEQ-fields." So
 				// we only process it if it's acceptable.
 				s.decRef()
+				e.rstReceived = true
 				return tcpip.ErrConnectionReset
 			}
 		} else if s.flagIsSet(flagAck) {
